@@ -607,15 +607,20 @@ func isStyleContentCollector(fn *ssa.Function, fns []*ssa.Function, depth int) b
 		}
 		ncallers++
 		open, close := false, false
-		for _, s := range findSinks(g) {
-			for _, op := range s.Operands {
-				if k, ok := op.(*ssa.Const); ok && k.Value != nil && k.Value.Kind() == constant.String {
-					txt := constant.StringVal(k.Value)
-					if strings.HasPrefix(txt, "<style") {
-						open = true
-					}
-					if strings.HasPrefix(txt, "</style>") {
-						close = true
+		// (the constants may be operands of a sink, or elements of the list a variadic write helper is given)
+		{
+			for _, b := range g.Blocks {
+				for _, ins := range b.Instrs {
+					for _, opp := range ins.Operands(nil) {
+						if k, ok := (*opp).(*ssa.Const); ok && k.Value != nil && k.Value.Kind() == constant.String {
+							txt := constant.StringVal(k.Value)
+							if strings.HasPrefix(txt, "<style") {
+								open = true
+							}
+							if strings.HasPrefix(txt, "</style>") {
+								close = true
+							}
+						}
 					}
 				}
 			}
